@@ -5,6 +5,7 @@ import (
 	"bytes"
 	"encoding/json"
 	"fmt"
+	"math/big"
 	"math/rand"
 	"strings"
 
@@ -255,7 +256,12 @@ func checkC15(c *core.Ctx) {
 		root := roots[j%len(roots)]
 		at := attrs[(j/len(roots))%len(attrs)]
 		sharp := j/(len(roots)*len(attrs)) == 1
-		args := []string{"info", "attr", "describe", "-t", at, "-r", root.String()}
+		rootArg := root.String()
+		if j%5 == 2 && root.Acc != 0 {
+			// the unicode signs are accepted wherever a note is written
+			rootArg = string(root.Letter) + map[int]string{1: "♯", -1: "♭"}[root.Acc]
+		}
+		args := []string{"info", "attr", "describe", "-t", at, "-r", rootArg}
 		// every spelling of the boolean preference
 		if sharp {
 			args = append(args, []string{"-s", "--precedeSharp", "--precedeSharp=true", "-s=true", "-s=1"}[j%5])
@@ -480,6 +486,77 @@ func checkC15(c *core.Ctx) {
 		}
 		if probs := describedNoteProblems(m, root, false); len(probs) > 0 {
 			c.Violate("userattr", i, sig+":note", strings.Join(probs, "; "), obs(res))
+			return
+		}
+		c.Nontrivial(sig + root.String())
+	})
+
+	// ---------- CLI level: roots that are not a note (junk around a note, two accidentals) are refused, never read as another note
+	junkRoots := []string{"xF", "C##", "Cbb", "Gm", "A B", "", "H", "c", "C #", "Fb♭", "B♯#", "1", "C1", " C", "C "}
+	c.Stream("junkroot", len(junkRoots), func(i int, _ *rand.Rand) {
+		res := run(c, nil, "info", "attr", "describe", "-t", "Major3", "-r", junkRoots[i])
+		c.Eval(1)
+		if infra(c, res) {
+			return
+		}
+		if a := abnormal(res); a != "" {
+			c.Violate("junkroot", i, "junkroot:abnormal", fmt.Sprintf("info attr describe -r %q %s", junkRoots[i], a), obs(res))
+			return
+		}
+		if res.OK() {
+			m, _ := yamlMap(res.Stdout)
+			c.Violate("junkroot", i, "junkroot:accepted:"+junkRoots[i], fmt.Sprintf("info attr describe -r %q is accepted and describes root %q: the root asked for is not a note", junkRoots[i], asStr(m["root"])), obs(res))
+			return
+		}
+		c.Nontrivial("junkroot:" + junkRoots[i])
+	})
+
+	// ---------- CLI level: interval numbers far beyond anything musical: the size is 12 per octave, exactly, or the degree is refused
+	hugeNums := []string{"5380300354831952555", "5380300354831952556", "5380300354831952560", "18446744073709551615", "3074457345618258590", "1000000000000", "4294967301", "8589934593", "9223372036854775807", "768614336404564650", "768614336404564651", "1537228672809129301", "65537", "100000"}
+	majorSizes := []int64{0, 0, 2, 4, 5, 7, 9, 11}
+	c.Stream("hugenumber", len(hugeNums)*3, func(i int, _ *rand.Rand) {
+		ns := hugeNums[i%len(hugeNums)]
+		root := roots[(i*5)%len(roots)]
+		pre := []string{"", "b", "#"}[i/len(hugeNums)]
+		n, _ := new(big.Int).SetString(ns, 10)
+		simple := new(big.Int).Mod(new(big.Int).Sub(n, big.NewInt(1)), big.NewInt(7)).Int64() + 1
+		oct := new(big.Int).Div(new(big.Int).Sub(n, big.NewInt(1)), big.NewInt(7))
+		want := new(big.Int).Add(new(big.Int).Mul(oct, big.NewInt(12)), big.NewInt(majorSizes[simple]))
+		switch pre {
+		case "b":
+			want.Sub(want, big.NewInt(1))
+		case "#":
+			want.Add(want, big.NewInt(1))
+		}
+		file := c.Scratch.File("huge-attr.yml", attrsYAML([]userAttr{{Name: "Zhuge", Degree: pre + ns}}))
+		res := run(c, nil, "info", "attr", "describe", "-t", "Zhuge", "-r", root.String(), "--attr", file)
+		c.Eval(1)
+		if infra(c, res) {
+			return
+		}
+		sig := "hugenumber:" + pre + ns
+		if a := abnormal(res); a != "" {
+			c.Violate("hugenumber", i, sig+":abnormal", fmt.Sprintf("an attribute of degree %s%s: info attr describe %s", pre, ns, a), obs(res))
+			return
+		}
+		if !res.OK() {
+			c.Count("huge_numbers_refused", 1)
+			return
+		}
+		m, err := yamlMap(res.Stdout)
+		if err != nil {
+			c.Violate("hugenumber", i, sig+":yaml", err.Error(), obs(res))
+			return
+		}
+		got, ok := new(big.Int).SetString(strings.TrimSpace(fmt.Sprint(m["semitone"])), 10)
+		if !ok || got.Cmp(want) != 0 {
+			c.Violate("hugenumber", i, sig+":size", fmt.Sprintf("degree %s%s is accepted and reported with %v semitones; twelve per octave gives %s", pre, ns, m["semitone"], want), obs(res))
+			return
+		}
+		ap, err := theory.ParseNote(asStr(m["applied"]))
+		wantPC := int(new(big.Int).Mod(new(big.Int).Add(want, big.NewInt(int64(root.Pitch()+120))), big.NewInt(12)).Int64())
+		if err != nil || ((ap.Pitch()%12)+12)%12 != wantPC {
+			c.Violate("hugenumber", i, sig+":note", fmt.Sprintf("degree %s%s from %s: applied note %q, root + interval has pitch class %d", pre, ns, root, asStr(m["applied"]), wantPC), obs(res))
 			return
 		}
 		c.Nontrivial(sig + root.String())
